@@ -234,9 +234,9 @@ func TestC08Errors(t *testing.T) {
 		case "error-response":
 			c.Outcome = dyn.Outcome{Err: genErrM(rt)}
 		case "plain-error":
-			c.Outcome = dyn.Outcome{Err: &dyn.ErrM{Plain: rapid.SampledFrom([]string{"disk on fire", "x", "bad: é \"q\" \\ \n nl"}).Draw(rt, "plain")}}
+			c.Outcome = dyn.Outcome{Err: &dyn.ErrM{Plain: rapid.SampledFrom([]string{"disk on fire", "x", "bad: é \"q\" \\ \n nl", "disk is 100% full", "key a%2Fb not found", "%d %s %v %!", "%"}).Draw(rt, "plain")}}
 		case "panic":
-			c.Outcome = dyn.Outcome{Err: &dyn.ErrM{Panic: rapid.SampledFrom([]string{"kaboom", "index out of range [1]"}).Draw(rt, "panic")}}
+			c.Outcome = dyn.Outcome{Err: &dyn.ErrM{Panic: rapid.SampledFrom([]string{"kaboom", "index out of range [1]", "50% done %s"}).Draw(rt, "panic")}}
 		case "nil-result":
 			// only methods that return something can return nil
 			if mi.M.Kind == "ACTION" || mi.Rest() == "update" || mi.Rest() == "delete" || (mi.Rest() == "partial_update" && !mi.M.ReturnEntity) {
